@@ -193,8 +193,12 @@ def _pools_case(draw):
             if draw(st.booleans()):
                 edits.append({"k": draw(st.integers(0, 3)), "did": draw(st.one_of(
                     st.sampled_from(sorted({p["did"] for p in pools})), _IDTXT))})
-            else:
+            elif draw(st.booleans()):
                 edits.append({"k": draw(st.integers(0, 3)), "details": draw(_details(atype))})
+            else:
+                # pool j is given pool k's reference-node set (as returned by its getter), then pool k gets one more
+                # reference node: the two pools must not share the set
+                edits.append({"k": draw(st.integers(0, 3)), "j": draw(st.integers(0, 3)), "node": draw(st.integers(0, n + 1))})
     return {"kind": "pools", "atype": atype, "pools": pools, "order": list(order),
             "via_json": draw(st.booleans()), "singles": singles, "edits": edits}
 
@@ -621,9 +625,18 @@ def _run_pools(case):
             if "did" in e:
                 pools2[k]["did"] = e["did"]
                 po.set_delegation_id(delegation_id=e["did"])
-            else:
+            elif "details" in e:
                 pools2[k]["details"] = e["details"]
                 po.set_pool_details(_mk_details(atype, e["details"]))
+            else:
+                j = e["j"] % len(pools2)
+                if j != k and pools2[j]["on"] not in pools2[k]["for"]:
+                    pj = ps.get_pool_by_id(pool_id=pools2[j]["id"], strict=True)
+                    pj.set_defined_for(po.get_defined_for())
+                    pools2[j]["for"] = list(pools2[k]["for"])
+                if e["node"] != pools2[k]["on"] and e["node"] not in pools2[k]["for"]:
+                    po.add_defined_for(name(e["node"]))
+                    pools2[k]["for"] = list(pools2[k]["for"]) + [e["node"]]
         exp2 = _exp_by_node(atype, pools2, name)
         try:
             ps.build_index_by_delegation_id()
